@@ -127,6 +127,16 @@ def corpus(tier):
         out.append([d, {"allow_text": True, "drop_unsupported": True}])
     for k in ("image", "mask", "filter", "a", "gop:rect+image", "Ngop.gop.unsup.after"):
         out.append([G.document([k, "lingrad"], "stroke"), {"drop_unsupported": True}])
+    # ndigits is part of the input too: the same gradient / opacity documents at other precisions (also beyond 6), converted
+    # BEFORE their default-precision twins in the whole-corpus runs
+    from mc.props import c06 as _c06
+
+    nd_docs = [_c06.document("linear", "numbers", "userSpaceOnUse", "rotate", "pad", "none", "none", "rect", "rotscale"), _c06.document("radial", "numbers", "objectBoundingBox", "matrix", "pad", "none", "fxfy", "circle", "translate"), G.document(["gop:rect+circle", "xformed"], "opacity")]
+    nd = []
+    for d in nd_docs:
+        for n in (9, 0, 1, 6):
+            nd.append([d, {"ndigits": n}])
+    out = nd + out + [[d, {}] for d in nd_docs if [d, {}] not in out]
     # failing conversions come first: in the whole-corpus runs of part A everything else is converted after them
     out = [[d, {}] for d in RAISING_DOCS] + out
     return out
@@ -429,7 +439,7 @@ def run(run):
         run.log(f"part A seeds done: {len(seeds)} processes")
         # CLI
         ok_docs = [d for i, d in enumerate(docs) if not str(solo.get(i, "EXC")).startswith("EXC")]
-        cli_docs = ok_docs[:16] + [d for d in ok_docs if d[1]][:6]
+        cli_docs = [d for d in ok_docs if not d[1]][:16] + [d for d in ok_docs if d[1] and "ndigits" not in d[1]][:6]
         cli_seeds = seeds[:4]
         jobs = [(d, s) for d in cli_docs for s in cli_seeds]
         res = list(core.pmap(_cli, jobs, chunksize=1))
@@ -443,7 +453,7 @@ def run(run):
     if run.tier == "quick":
         okidx = [i for i in alpha if not str(solo.get(i, "EXC")).startswith("EXC")]
         raising = [i for i in alpha if str(solo.get(i, "EXC")).startswith("EXC")]
-        alpha = raising[:24] + okidx[:34] + [i for i in okidx if docs[i][1]][:8]
+        alpha = raising[:24] + okidx[:34] + [i for i in okidx if docs[i][1] and "ndigits" not in docs[i][1]][:8]
     n_states = 0
     canons = {}
     t0 = time.time()
